@@ -54,6 +54,8 @@ var c07Universe = []c07Pkg{
 	{"x.com/Y/fmt", "fmt"}, {"github.com/Sirupsen/logrus", "logrus"}, {"github.com/sirupsen/logrus", "logrus"},
 	// a path and a sub-path of it, with one package name
 	{"github.com/go-chi/chi", "chi"}, {"github.com/go-chi/chi/v5", "chi"},
+	// a one-element path whose package is named differently (and like the yaml package above)
+	{"yaml2", "yaml"},
 }
 
 type c07Spec struct {
@@ -129,7 +131,7 @@ func c07Generate(r *rand.Rand) *c07Config {
 		// name: leave out the one path for which it is not
 		var q []int
 		for _, k := range perm {
-			if c07Universe[k].path != "gopkg.in/yaml.v2" && c07Universe[k].path != "github.com/go-chi/chi/v5" {
+			if c07Universe[k].path != "gopkg.in/yaml.v2" && c07Universe[k].path != "github.com/go-chi/chi/v5" && c07Universe[k].path != "yaml2" {
 				q = append(q, k)
 			}
 		}
@@ -396,12 +398,18 @@ func (cfg *c07Config) resolverFor() resolver.RestorerResolver {
 	case "simple":
 		return simple.New(c07Names())
 	case "guess.WithMap":
-		return guess.WithMap(map[string]string{"gopkg.in/yaml.v2": "yaml", "github.com/go-chi/chi/v5": "chi"})
+		return guess.WithMap(map[string]string{"gopkg.in/yaml.v2": "yaml", "github.com/go-chi/chi/v5": "chi", "yaml2": "yaml"})
 	}
 	return guess.New()
 }
 
+// resolvedName is the name the configured resolver has to give: every configuration's resolver is
+// accurate for the paths it is used with, so this is the package's real name (taken from the
+// universe table, not from the resolver under test).
 func (cfg *c07Config) resolvedName(path string) string {
+	if n, ok := c07Names()[path]; ok {
+		return n
+	}
 	n, _ := cfg.resolverFor().ResolvePackage(path)
 	return n
 }
